@@ -14,7 +14,7 @@ import ast
 from typing import Any, Dict, List, Optional
 
 from .index import Repo, Module
-from .pyinterp import Env, Function, Interp, Stub, Unsupported, _MISSING
+from .pyinterp import MODULES, Env, Function, Interp, Stub, Unsupported, _MISSING
 
 
 class ClassRef(Stub):
@@ -74,6 +74,10 @@ class ModuleEnv(Env):
         if k in m.functions:
             return Function(m.functions[k].node, self, self.interp)
         if k in m.classes:
+            from .pyinterp import record_class
+            rc = record_class(m.classes[k].node)
+            if rc is not None:
+                return rc
             return ClassRef(k, f"{m.name}.{k}")
         if k in m.constants:
             try:
@@ -88,6 +92,13 @@ class ModuleEnv(Env):
             head = dotted.split(".")[0]
             if head in self.stand_ins and "." not in dotted:
                 return self.stand_ins[head]
+            if head in MODULES:
+                v_ = MODULES[head]
+                for part in dotted.split(".")[1:]:
+                    if not isinstance(v_, dict) or part not in v_:
+                        raise Unsupported(f"import `{k}` ({dotted}) has no stand-in")
+                    v_ = v_[part]
+                return v_
             if head == "math":
                 import math as _math
                 from .pyinterp import StubCall
